@@ -1470,9 +1470,10 @@ func extractC03(c *ctxT) {
 	}
 	csb.WriteString("]\n\n")
 	classOnly := c.c03ClassOnly()
+	flowTypes := map[string]map[string]string{}
 	c.facts["C03.classOnlyParams"] = classOnly
 	var sb strings.Builder
-	sb.WriteString("import FxVerif.Model.C03Prog\n\nnamespace FxVerif.Gen.C03\nopen FxVerif.Model.C03\n\n" + csb.String() + "end FxVerif.Gen.C03\n\n-- the generated `path` / `validGen` / `handlerView` of each claim type live in the namespace of the model's claim record (so `c.path` resolves)\nnamespace FxVerif.Model.C03\n\n")
+	sb.WriteString("import FxVerif.Model.C03Prog\nimport FxVerif.Model.C03Flow\n\nnamespace FxVerif.Gen.C03\nopen FxVerif.Model.C03\n\n" + csb.String() + "end FxVerif.Gen.C03\n\n-- the generated `path` / `validGen` / `handlerView` of each claim type live in the namespace of the model's claim record (so `c.path` resolves)\nnamespace FxVerif.Model.C03\n\n")
 	var names []string
 	factClaims := map[string]any{}
 	viewFacts := map[string]any{}
@@ -1546,6 +1547,7 @@ func extractC03(c *ctxT) {
 		for _, f := range cl.Fields {
 			ftv[f[0]] = f[1]
 		}
+		flowTypes[cl.Name] = ftv
 		view := c.c03HandlerView(cl.Name, ftv, classOnly)
 		sb.WriteString(c03ViewLean(cl.Name, view))
 		viewFacts[cl.Name] = view
@@ -1659,6 +1661,7 @@ func extractC03(c *ctxT) {
 	sb.WriteString(c.c03KeyLayoutLean())
 	sb.WriteString(c.c03DispatchLean())
 	sb.WriteString(c.c03ProgLean())
+	sb.WriteString(c.c03FlowLean(flowTypes, classOnly))
 	sb.WriteString("end FxVerif.Gen.C03\n")
 	c.write("C03.lean", sb.String())
 	c.facts["C03.claims"] = factClaims
